@@ -77,7 +77,11 @@ def predicate_text(fn, ctx):
     if callee == 'selectop':
         if len(call.args) < 4:
             raise _Undecided('selectop call shape')
-        valname = norm(call.args[2])
+        valnode = call.args[2]
+        # Comparable(x) is transparent for the predicate (the ordering is decided by C04)
+        if isinstance(valnode, ast.Call) and norm(valnode.func) == 'Comparable' and len(valnode.args) == 1:
+            valnode = valnode.args[0]
+        valname = norm(valnode)
         op = call.args[3]
         opn = norm(op)
         if opn.startswith('operator.') and opn[9:] in OPERATOR_FORMS:
@@ -125,20 +129,20 @@ def predicate_text(fn, ctx):
 
 
 # --------------------------------------------------------------------- XOR guard
-def _bool_eval(e, P, C, pred_names):
+def _bool_eval(e, P, C, pred_names, defs=None):
     """Evaluate a guard over the predicate outcome P and the complement flag C."""
     if isinstance(e, ast.BoolOp):
-        vals = [_bool_eval(v, P, C, pred_names) for v in e.values]
+        vals = [_bool_eval(v, P, C, pred_names, defs) for v in e.values]
         return all(vals) if isinstance(e.op, ast.And) else any(vals)
     if isinstance(e, ast.UnaryOp) and isinstance(e.op, ast.Not):
-        return not _bool_eval(e.operand, P, C, pred_names)
+        return not _bool_eval(e.operand, P, C, pred_names, defs)
     if isinstance(e, ast.Compare) and len(e.ops) == 1 and isinstance(e.ops[0], (ast.Eq, ast.NotEq, ast.Is, ast.IsNot)):
-        a = _bool_eval(e.left, P, C, pred_names)
-        b = _bool_eval(e.comparators[0], P, C, pred_names)
+        a = _bool_eval(e.left, P, C, pred_names, defs)
+        b = _bool_eval(e.comparators[0], P, C, pred_names, defs)
         eq = isinstance(e.ops[0], (ast.Eq, ast.Is))
         return (a == b) if eq else (a != b)
     if isinstance(e, ast.Call) and isinstance(e.func, ast.Name) and e.func.id == 'bool' and len(e.args) == 1:
-        return _bool_eval(e.args[0], P, C, pred_names)
+        return _bool_eval(e.args[0], P, C, pred_names, defs)
     if isinstance(e, ast.Call) and isinstance(e.func, ast.Name) and e.func.id in pred_names:
         return P
     if isinstance(e, ast.Name) and e.id == 'complement':
@@ -148,8 +152,10 @@ def _bool_eval(e, P, C, pred_names):
     if isinstance(e, ast.Constant) and isinstance(e.value, bool):
         return e.value
     if isinstance(e, ast.IfExp):
-        return _bool_eval(e.body, P, C, pred_names) if _bool_eval(e.test, P, C, pred_names) \
-            else _bool_eval(e.orelse, P, C, pred_names)
+        return _bool_eval(e.body, P, C, pred_names, defs) if _bool_eval(e.test, P, C, pred_names, defs) \
+            else _bool_eval(e.orelse, P, C, pred_names, defs)
+    if isinstance(e, ast.Name) and defs and e.id in defs:
+        return _bool_eval(defs[e.id], P, C, pred_names, {k: v for k, v in defs.items() if k != e.id})
     raise _Undecided('guard construct %s' % norm(e))
 
 
@@ -179,6 +185,34 @@ def _yield_conditions(fn, loop):
     return out
 
 
+COPY_CALLS = ('tuple', 'list', 'Record')
+
+
+def _is_row(e, aliases):
+    if isinstance(e, ast.Name):
+        return e.id in aliases
+    if isinstance(e, ast.Call) and norm(e.func) in COPY_CALLS and e.args:
+        return _is_row(e.args[0], aliases)
+    return False
+
+
+def _row_aliases(loop):
+    """names that stand for the current input row inside a data loop: the loop target and every local bound (once per
+    pass) to it or to a copy of it (tuple(row), list(row), Record(row, flds))"""
+    aliases = set()
+    if isinstance(loop.target, ast.Name):
+        aliases.add(loop.target.id)
+    changed = True
+    while changed:
+        changed = False
+        for n in ast.walk(loop):
+            if isinstance(n, ast.Assign) and len(n.targets) == 1 and isinstance(n.targets[0], ast.Name) and \
+                    n.targets[0].id not in aliases and _is_row(n.value, aliases):
+                aliases.add(n.targets[0].id)
+                changed = True
+    return aliases
+
+
 def check_xor(ctx, rep, fn, pred_names):
     loops = [n for n in own_nodes(fn.node) if isinstance(n, ast.For)]
     data_loops = [l for l in loops if any(isinstance(x, ast.Yield) for x in ast.walk(l))]
@@ -188,12 +222,18 @@ def check_xor(ctx, rep, fn, pred_names):
     ys = []
     for l in data_loops:
         ys += _yield_conditions(fn, l)
+    # locals bound exactly once in the function (split guards: `accepted = bool(where(row))`, `wanted = not complement`)
+    counts = {}
+    for n in own_nodes(fn.node):
+        if isinstance(n, ast.Assign) and len(n.targets) == 1 and isinstance(n.targets[0], ast.Name):
+            counts.setdefault(n.targets[0].id, []).append(n.value)
+    defs = {k: v[0] for k, v in counts.items() if len(v) == 1 and k not in pred_names and k != 'complement'}
     try:
         for P in (False, True):
             for C in (False, True):
                 n_yield = 0
                 for y, conds in ys:
-                    if all(_bool_eval(t, P, C, pred_names) == pol for t, pol in conds):
+                    if all(_bool_eval(t, P, C, pred_names, defs) == pol for t, pol in conds):
                         n_yield += 1
                 want = 1 if (P != C) else 0
                 case = 'predicate=%s complement=%s' % (P, C)
@@ -206,12 +246,14 @@ def check_xor(ctx, rep, fn, pred_names):
                                  % (n_yield, P, C), ys[0][0] if ys else fn.node)
     except _Undecided as e:
         rep.undecided('R13.1', fn, 'XOR guard', str(e), fn.node)
-    # yielded value is the row itself
-    for y, conds in ys:
-        v = y.value
-        txt = norm(v) if v is not None else ''
-        if txt not in ('tuple(row)', 'row'):
-            rep.violated('R13.1', fn, 'yield ' + txt, 'a selection must deliver the row unchanged', y)
+    # yielded value is the row itself (or a plain copy of it), whatever the locals are called
+    for l in data_loops:
+        aliases = _row_aliases(l)
+        for y, conds in _yield_conditions(fn, l):
+            v = y.value
+            txt = norm(v) if v is not None else ''
+            if v is None or not _is_row(v, aliases):
+                rep.violated('R13.1', fn, 'yield ' + txt, 'a selection must deliver the row unchanged', y)
 
 
 def run(ctx):
@@ -382,50 +424,145 @@ def r133(ctx, rep):
         rep.violated('R13.3', fc, 'facet', 'facet must build selecteq(table, key, v) for each distinct value', fc.node)
 
 
+def _single_defs(fn):
+    counts = {}
+    for n in own_nodes(fn.node):
+        if isinstance(n, ast.Assign) and len(n.targets) == 1:
+            t = n.targets[0]
+            if isinstance(t, ast.Name):
+                counts.setdefault(t.id, []).append(n.value)
+            elif isinstance(t, ast.Tuple) and isinstance(n.value, ast.Tuple) and len(t.elts) == len(n.value.elts):
+                for a, v in zip(t.elts, n.value.elts):
+                    if isinstance(a, ast.Name):
+                        counts.setdefault(a.id, []).append(v)
+    return {k: v[0] for k, v in counts.items() if len(v) == 1}
+
+
+def _deref(e, defs, depth=0):
+    while isinstance(e, ast.Name) and e.id in defs and depth < 4:
+        e = defs[e.id]
+        depth += 1
+    return e
+
+
+def _truthy_default(fn, attr, param):
+    """value stored in self.<attr> when `param` is empty / non-empty: ('param' | text of the expression) per scenario"""
+    out = {}
+    for scen, truth in (('empty', False), ('given', True)):
+        def test(t):
+            if isinstance(t, ast.Name) and t.id == param:
+                return truth
+            if isinstance(t, ast.UnaryOp) and isinstance(t.op, ast.Not):
+                v = test(t.operand)
+                return None if v is None else (not v)
+            if isinstance(t, ast.Compare) and len(t.ops) == 1 and norm(t.left) == 'len(%s)' % param and \
+                    isinstance(t.comparators[0], ast.Constant) and t.comparators[0].value == 0:
+                if isinstance(t.ops[0], ast.Eq):
+                    return not truth
+                if isinstance(t.ops[0], (ast.Gt, ast.NotEq)):
+                    return truth
+            return None
+
+        def ev(e):
+            if isinstance(e, ast.BoolOp) and isinstance(e.op, ast.Or) and len(e.values) == 2 and test(e.values[0]) is not None:
+                return ev(e.values[0]) if test(e.values[0]) else ev(e.values[1])
+            if isinstance(e, ast.IfExp) and test(e.test) is not None:
+                return ev(e.body if test(e.test) else e.orelse)
+            return norm(e)
+
+        def run(stmts, cur):
+            for st in stmts:
+                if isinstance(st, ast.Assign) and any(norm(t) == 'self.' + attr for t in st.targets):
+                    cur = ev(st.value)
+                elif isinstance(st, ast.If):
+                    t = test(st.test)
+                    if t is None:
+                        if any(isinstance(x, ast.Assign) and any(norm(tt) == 'self.' + attr for tt in x.targets)
+                               for x in ast.walk(st)):
+                            raise _Undecided('test `%s`' % norm(st.test))
+                        continue
+                    cur = run(st.body if t else st.orelse, cur)
+            return cur
+        out[scen] = run(fn.node.body, None)
+    return out
+
+
 def r134(ctx, rep):
+    """rowslice / head / tail / skip select by position exactly as itertools.islice would: decided on the data flow
+    (which iterator is sliced with which arguments), not on the spelling."""
     rs = ctx.project.need_fn('petl.transform.basics:iterrowslice')
+    defs = _single_defs(rs)
+    sp = rs.posparams[1] if len(rs.posparams) > 1 else None
     calls = [n for n in own_nodes(rs.node) if isinstance(n, ast.Call) and norm(n.func) in ('islice', 'itertools.islice')]
-    ok = len(calls) == 1 and len(calls[0].args) == 2 and norm(calls[0].args[0]) == 'it' and \
-        isinstance(calls[0].args[1], ast.Starred) and norm(calls[0].args[1].value) == 'sliceargs'
+    ok = False
+    if len(calls) == 1 and sp is not None:
+        c = calls[0]
+        src = _deref(c.args[0], defs) if c.args else None
+        data_iter = isinstance(c.args[0], ast.Name) and isinstance(src, ast.Call) and norm(src.func) == 'iter' and \
+            src.args and norm(src.args[0]) == rs.posparams[0]
+        star = len(c.args) == 2 and isinstance(c.args[1], ast.Starred) and norm(c.args[1].value) == sp
+        # the yielding loop ranges over that islice object
+        loops = [l for l in own_nodes(rs.node) if isinstance(l, ast.For) and any(isinstance(x, ast.Yield) for x in ast.walk(l))]
+        ranged = any(_deref(l.iter, defs) is c or l.iter is c for l in loops)
+        ok = data_iter and star and ranged
     if ok:
         rep.held('R13.4', rs, 'islice(it, *sliceargs)', 'the data iterator is sliced with the user\'s arguments', rs.node)
     else:
         rep.violated('R13.4', rs, 'islice(it, *sliceargs)',
-                     'rowslice must apply itertools.islice(it, *sliceargs) to the data rows; found %s'
-                     % [norm(c) for c in calls], rs.node)
+                     'rowslice must apply itertools.islice(<data iterator>, *<slice arguments>) to the data rows and yield '
+                     'from it; found %s' % [norm(c) for c in calls], rs.node)
     rv = ctx.project.need_fn('petl.transform.basics:RowSliceView.__init__')
-    stores = [n for n in own_nodes(rv.node) if isinstance(n, ast.Assign) and any(norm(t) == 'self.sliceargs' for t in n.targets)]
-    vals = sorted(norm(n.value) for n in stores)
-    if vals and all(v in ('sliceargs', '(None,)') for v in vals) and 'sliceargs' in vals:
-        rep.held('R13.4', rv, 'self.sliceargs', 'the user\'s slice arguments are stored unchanged (%s)' % vals, rv.node)
-    else:
-        rep.violated('R13.4', rv, 'self.sliceargs',
-                     'the slice arguments are rewritten before they reach itertools.islice (%s): e.g. a stop of 0 or a step '
-                     'are no longer interpreted as islice would' % vals, stores[0] if stores else rv.node)
+    vp = rv.vararg or 'sliceargs'
+    try:
+        got = _truthy_default(rv, 'sliceargs', vp)
+        if got['given'] == vp and got['empty'] in ('(None,)', vp):
+            rep.held('R13.4', rv, 'self.sliceargs', 'the user\'s slice arguments are stored unchanged (no arguments -> %s)' % got['empty'], rv.node)
+        else:
+            rep.violated('R13.4', rv, 'self.sliceargs',
+                         'the slice arguments are rewritten before they reach itertools.islice (given -> %s, none -> %s): e.g. a '
+                         'stop of 0 or a step are no longer interpreted as islice would' % (got['given'], got['empty']), rv.node)
+    except _Undecided as e:
+        rep.undecided('R13.4', rv, 'self.sliceargs', str(e), rv.node)
     hd = ctx.project.need_fn('petl.transform.basics:head')
-    calls = [n for n in own_nodes(hd.node) if isinstance(n, ast.Call) and norm(n.func) == 'rowslice']
-    if len(calls) == 1 and [norm(a) for a in calls[0].args] == ['table', 'n'] and not calls[0].keywords:
+    calls = [n for n in own_nodes(hd.node) if isinstance(n, ast.Call) and
+             ctx.res.callee_names(hd, n) & {'petl.transform.basics:rowslice', 'petl.transform.basics:RowSliceView'}]
+    if len(calls) == 1 and [norm(a) for a in calls[0].args] == [hd.posparams[0], hd.posparams[1]] and not calls[0].keywords:
         rep.held('R13.4', hd, 'rowslice(table, n)', '', hd.node)
     else:
         rep.violated('R13.4', hd, 'rowslice(table, n)', 'head(n) must be rowslice(table, n); found %s' % [norm(c) for c in calls], hd.node)
     sk = ctx.project.need_fn('petl.transform.headers:iterskip')
     calls = [n for n in own_nodes(sk.node) if isinstance(n, ast.Call) and norm(n.func) in ('islice', 'itertools.islice')]
-    if len(calls) == 1 and [norm(a) for a in calls[0].args] == ['source', 'n', 'None']:
+    skd = _single_defs(sk)
+    good = False
+    if len(calls) == 1 and len(calls[0].args) == 3:
+        a0 = _deref(calls[0].args[0], skd)
+        a0t = norm(a0)
+        good = a0t in (sk.posparams[0], 'iter(%s)' % sk.posparams[0]) and norm(calls[0].args[1]) == sk.posparams[1] and \
+            norm(calls[0].args[2]) == 'None'
+    if good:
         rep.held('R13.4', sk, 'islice(source, n, None)', '', sk.node)
     else:
         rep.violated('R13.4', sk, 'islice(source, n, None)', 'skip(n) must be islice(source, n, None); found %s' % [norm(c) for c in calls], sk.node)
     tl = ctx.project.need_fn('petl.transform.basics:itertail')
-    # bounded deque: popleft under len(cache) > n
+    # a window that never holds more than n rows: deque(maxlen=n), or append + popleft under len(window) > n
+    tld = _single_defs(tl)
+    npar = tl.posparams[1] if len(tl.posparams) > 1 else 'n'
+    deques = [k for k, v in tld.items() if isinstance(v, ast.Call) and norm(v.func) in ('deque', 'collections.deque')]
     ok = False
-    for n in own_nodes(tl.node):
-        if isinstance(n, ast.If) and norm(n.test) in ('len(cache) > n',):
-            if any(isinstance(x, ast.Call) and norm(x.func) == 'cache.popleft' for s in n.body for x in ast.walk(s)):
-                ok = True
-        if isinstance(n, ast.Call) and norm(n.func) in ('deque', 'collections.deque') and \
-                any(k.arg == 'maxlen' and norm(k.value) == 'n' for k in n.keywords):
+    for w in deques:
+        v = tld[w]
+        if any(k.arg == 'maxlen' and norm(k.value) == npar for k in v.keywords) or \
+                (len(v.args) == 2 and norm(v.args[1]) == npar):
             ok = True
+        pops = {'%s.popleft' % w} | {k for k, d in tld.items() if norm(d) == '%s.popleft' % w}
+        for n in own_nodes(tl.node):
+            if isinstance(n, ast.If) and norm(n.test) in ('len(%s) > %s' % (w, npar), '%s < len(%s)' % (npar, w)):
+                if any(isinstance(x, ast.Call) and norm(x.func) in pops for s2 in n.body for x in ast.walk(s2)):
+                    ok = True
     if ok:
         rep.held('R13.4', tl, 'tail window', 'keeps the last n rows', tl.node)
+    elif not deques:
+        rep.undecided('R13.4', tl, 'tail window', 'no deque window recognised', tl.node)
     else:
         rep.violated('R13.4', tl, 'tail window', 'tail(n) must keep exactly the last n rows (deque bounded by n)', tl.node)
 
